@@ -1,12 +1,15 @@
 /-
   C11 — Incentive contract: staked LP is held one-for-one and returned to its owner.
   Property theorems only (helpers in WW/Proofs/{Incentive,Flows,Ledger,FlowSums,ClaimLedger,PosDelta,HistKeys,
-  FlowDelta,FlowBacked,Backed,Custody,CustodyHist,FlowExact,HelperKeeps,PosKeys,AssetKinds}.lean). The model `WW.Inc.step` is the
-  replica of the incentive contract + frontend helper path (engine `incentive`), following the repaired
-  code (expand_flow dispatches its TransferFrom; flow reset keeps the original amount).
+  FlowDelta,FlowBacked,Backed,Custody,CustodyHist,FlowExact,HelperKeeps,PosKeys,AssetKinds,HelperReentry}.lean). The model
+  `WW.Inc.step` is the replica of the incentive contract + frontend helper path (engine `incentive`), following
+  the repaired code (expand_flow dispatches its TransferFrom; flow reset keeps the original amount);
+  `WW.Inc.stepTx` (`WW/Model/HelperReentry.lean`) adds the transactions in which the hostile cw20 asset of the
+  helper's pair sends a message of its own from inside a transfer (last section of this file).
 -/
 import WW.Proofs.PosKeys
 import WW.Proofs.AssetKinds
+import WW.Proofs.HelperReentry
 namespace WW.C11
 open WW WW.Gen WW.Inc
 
@@ -284,5 +287,206 @@ example :
     (∀ p ∈ ops, strayOf c p.1 p.2 = 0) ∧ s.flows.length = 1
     ∧ (balOf s 4 0, balOf s COLLECTOR 0, balOf s INC 0, staked s, flowFunds s 0, balOf s INC 3, balOf s 4 3)
         = (9000, 1000, 1000, 1000, 0, 5000, 3000) := by decide
+
+/-! ### re-entrant transactions: the cw20 asset of the helper's pair is hostile
+
+`Tx.reenter hk outer`: `outer` is sent while the pool token is armed with `hk` (trigger point, plain / caught,
+the token's own account `hk.sender` with its own funds and allowances `hk.offers`, ANY operation `hk.inner` of
+the incentive contract or a helper `Deposit` of its own). `reachTx` runs histories of plain and re-entrant
+transactions; every theorem below holds for all amounts, states, hooks and histories. -/
+
+/-- the plain helper deposit is its four messages in a row — the helper's pull, the pair's pull, the pair's LP
+    transfer, the helper's reply run with the depositor's own `TEMP_STATE` —; a re-entrant one is the same four
+    with the hook between the first and the second (trigger 1) or the second and the third (trigger 2) -/
+theorem helper_deposit_phases (c : Cfg) (s : St) (e : Env) (a0 a1 dur : Nat) :
+    helperDeposit c s e a0 a1 dur = helperDepositP c s e a0 a1 dur :=
+  helperDeposit_phases c s e a0 a1 dur
+
+/-- **the hostile token fires on the helper's path only**: armed while any operation other than a helper deposit
+    naming the pair's own assets is sent, nothing of the hook happens — the transaction is the plain operation -/
+theorem hostile_token_fires_on_helper_path_only (c : Cfg) (s : St) (e : Env) (hk : Hook) (outer : Op)
+    (h : ∀ a0 a1 dur, outer ≠ .helperDeposit a0 a1 dur) :
+    stepTx c s e (.reenter hk outer) = stepTx c s e (.plain outer) := by
+  cases outer with
+  | helperDeposit a0 a1 dur => exact absurd rfl (h a0 a1 dur)
+  | openPos _ _ _ | expandPos _ _ _ | closePos _ | withdraw | claim | snapshot | openFlow _ _ _ _
+  | expandFlow _ _ _ _ | closeFlow _ | helperDepositAs _ _ _ _ _ => rfl
+
+/-- **a refused nested call leaves no trace**: a re-entrant transaction that went through while its nested
+    message did not — the trigger was never hit (`0`), or the nested operation was refused and caught (`2`) —
+    ends in exactly the state of the plain outer operation, which goes through as well. Any hook, any state. -/
+theorem refused_nested_call_leaves_no_trace {c : Cfg} {s s' : St} {e : Env} {hk : Hook} {outer : Op} {f : Nat}
+    (h : stepTx c s e (.reenter hk outer) = .ok (s', f)) (hf : f ≠ 1) : step c s e outer = .ok s' := by
+  cases outer with
+  | helperDeposit a0 a1 dur => exact reenterDeposit_refused h hf
+  | openPos _ _ _ | expandPos _ _ _ | closePos _ | withdraw | claim | snapshot | openFlow _ _ _ _
+  | expandFlow _ _ _ _ | closeFlow _ | helperDepositAs _ _ _ _ _ =>
+    unfold stepTx at h
+    obtain ⟨t, ht, h⟩ := bind_eq_ok h
+    injection h with h; injection h with h1 _
+    subst h1
+    exact ht
+
+/-- **helper_keeps_nothing, re-entrant, any state**: after a helper deposit into which ANY message of the hostile
+    token was nested (any trigger, plain or caught, any nested operation incl. a deposit of its own, whatever
+    became of it) the helper holds no LP at all: the reply stakes its whole LP balance. -/
+theorem helper_keeps_no_lp_reentrant {c : Cfg} {s s' : St} {e : Env} {hk : Hook} {a0 a1 dur f : Nat}
+    (h : stepTx c s e (.reenter hk (.helperDeposit a0 a1 dur)) = .ok (s', f)) : balOf s' HELPER 0 = 0 := by
+  obtain ⟨_, _, _, _, _, _, _, _, _, _, _, _, _, _, _, _, h4⟩ := reenterDeposit_spec h
+  have := hdReply_helper h4 0
+  simpa using this
+
+/-- **helper_keeps_nothing over ALL histories of plain and re-entrant transactions**: from a fresh contract and a
+    helper that holds nothing, after every history — any senders other than the helper itself (the hostile
+    token's account included), any hooks, nested deposits that went through, were refused, were caught, failed
+    transactions — the helper holds NOTHING: no LP, none of the pool assets, no other asset. -/
+theorem helper_keeps_nothing_tx (c : Cfg) (e0 : Nat) (bal : Bal) (txs : List (Env × Tx))
+    (h0 : ∀ a, aget bal (HELPER, a) = 0) (hs : TxSendersAvoid HELPER txs) (a : Nat) :
+    balOf (reachTx c (init e0 bal) txs) HELPER a = 0 :=
+  (reachTx_HInv txs _ (init_HInv e0 bal h0) hs).empty a
+
+/-- … as a one-transaction statement from any state in which the helper holds nothing and has created no flow
+    (`HInv`: with the weight and flow invariants) -/
+theorem helper_keeps_nothing_tx_step {c : Cfg} {s s' : St} {e : Env} {tx : Tx} {f : Nat} (hI : HInv s)
+    (hs : ∀ u ∈ txSenders e tx, u ≠ HELPER) (h : stepTx c s e tx = .ok (s', f)) (a : Nat) :
+    balOf s' HELPER a = 0 :=
+  (stepTx_HInv hI hs h).empty a
+
+/-- **custody_eq over ALL histories of plain and re-entrant transactions** (no donated LP coins, `strayTx`: the
+    plain operation's and the nested one's; senders other than the contract; each party's coins with distinct
+    denoms; epochs that never go back): LP balance = Σ open + Σ closed + Σ unclaimed funds of the LP-asset flows,
+    exactly, after every transaction — also after those in which a nested operation ran between the helper's
+    messages. -/
+theorem custody_eq_tx (c : Cfg) (e0 : Nat) (bal : Bal) (txs : List (Env × Tx))
+    (hs : TxSendersAvoid INC txs) (ho : ∀ p ∈ txs, txOffersOk p.1 p.2) (hk : ∀ p ∈ txs, strayTx c p.1 p.2 = 0)
+    (he : EpochsFromTx e0 txs) (h0 : balOf (init e0 bal) INC 0 = 0) :
+    CustodyEq (reachTx c (init e0 bal) txs) 0 := by
+  obtain ⟨ep', h⟩ := reachTx_custody (c := c) txs (init e0 bal) e0 _ (init_CInv e0 bal) hs ho hk he
+  have hb := h.bal
+  unfold owed at hb
+  simp only [if_true] at hb
+  unfold CustodyEq
+  rw [flowFunds_eq]
+  omega
+
+/-- the custody equation through ONE transaction, plain or re-entrant, from any state satisfying the invariant -/
+theorem custody_eq_tx_step {c : Cfg} {s s' : St} {e : Env} {tx : Tx} {f K : Nat} (hI : CInv s e.epoch K)
+    (hs : ∀ u ∈ txSenders e tx, u ≠ INC) (hn : txOffersOk e tx) (h0 : strayTx c e tx = 0)
+    (h : stepTx c s e tx = .ok (s', f)) : balOf s' INC 0 = staked s' + flowFunds s' 0 + K := by
+  have hb := (stepTx_custody hI hs hn h0 h).bal
+  unfold owed at hb
+  simp only [if_true] at hb
+  rw [flowFunds_eq]
+  omega
+
+/-- **a helper deposit is staked for ITS sender with exactly the LP minted** (plain transaction, any state in which
+    the helper holds no LP, any depositor other than the helper): the depositor's position of the stated duration
+    is opened with / grows by exactly `a0 + a1`; no other position of the depositor, no position of anybody else
+    and no closed position moves. -/
+theorem helper_deposit_credits_sender {c : Cfg} {s s' : St} {e : Env} {a0 a1 dur : Nat} (hs : e.sender ≠ HELPER)
+    (h0 : balOf s HELPER 0 = 0) (h : step c s e (.helperDeposit a0 a1 dur) = .ok s') :
+    amtAt (openOf s' e.sender) dur = amtAt (openOf s e.sender) dur + (a0 + a1)
+    ∧ (∀ d, d ≠ dur → amtAt (openOf s' e.sender) d = amtAt (openOf s e.sender) d)
+    ∧ (∀ v, v ≠ e.sender → openOf s' v = openOf s v)
+    ∧ s'.closedPos = s.closedPos :=
+  step_helperDeposit_credits hs h0 h
+
+/-- **the reply of a re-entrant deposit** (helper empty before, senders other than the helper): it runs in a state
+    `t` — the positions before the transaction, or those the nested operation left — in which the helper holds
+    exactly the LP minted for THIS deposit, and credits exactly that to the receiver and duration `tmp` it finds
+    in `TEMP_STATE`: the depositor's own, unless a nested operation went through (`f = 1`), then `tmpAfter` — still
+    the depositor's own for every nested operation but a `Deposit`. -/
+theorem reentrant_deposit_reply {c : Cfg} {s s' : St} {e : Env} {hk : Hook} {a0 a1 dur f : Nat} (hI : HInv s)
+    (hs : e.sender ≠ HELPER) (hks : hk.sender ≠ HELPER)
+    (h : stepTx c s e (.reenter hk (.helperDeposit a0 a1 dur)) = .ok (s', f)) :
+    ∃ (t : St) (tmp : Tmp),
+      amtAt (openOf s' tmp.1) tmp.2 = amtAt (openOf t tmp.1) tmp.2 + (a0 + a1)
+      ∧ (∀ d, d ≠ tmp.2 → amtAt (openOf s' tmp.1) d = amtAt (openOf t tmp.1) d)
+      ∧ (∀ v, v ≠ tmp.1 → openOf s' v = openOf t v)
+      ∧ s'.closedPos = t.closedPos
+      ∧ ((f = 1 ∧ tmp = tmpAfter hk (e.sender, dur)
+            ∧ ∃ t0 t1, t0.openPos = s.openPos ∧ t0.closedPos = s.closedPos
+                ∧ step c t0 (hk.env e) hk.inner = .ok t1 ∧ t.openPos = t1.openPos ∧ t.closedPos = t1.closedPos)
+         ∨ (f ≠ 1 ∧ tmp = (e.sender, dur) ∧ t.openPos = s.openPos ∧ t.closedPos = s.closedPos)) := by
+  obtain ⟨t, tmp, h4, hrow, hcase⟩ := reenterDeposit_reply hI hs hks h
+  obtain ⟨r1, r2, r3, r4⟩ := hdReply_position h4
+  rw [hrow] at r1
+  exact ⟨t, tmp, r1, r2, r3, r4, hcase⟩
+
+/-- … hence **with no nested deposit going through the deposit is staked for ITS sender**: whatever else the hostile
+    token nested into it (any operation of the incentive contract, gone through, refused or never triggered; a
+    deposit of its own that was refused), the depositor's position of the stated duration grows by exactly the
+    LP minted, on top of what the nested operation left. -/
+theorem deposit_credits_its_sender_unless_nested_deposit {c : Cfg} {s s' : St} {e : Env} {hk : Hook}
+    {a0 a1 dur f : Nat} (hI : HInv s) (hs : e.sender ≠ HELPER) (hks : hk.sender ≠ HELPER)
+    (h : stepTx c s e (.reenter hk (.helperDeposit a0 a1 dur)) = .ok (s', f))
+    (hnd : f = 1 → ∀ x y d, hk.inner ≠ .helperDeposit x y d) :
+    ∃ t : St, amtAt (openOf s' e.sender) dur = amtAt (openOf t e.sender) dur + (a0 + a1)
+      ∧ (∀ v, v ≠ e.sender → openOf s' v = openOf t v) ∧ s'.closedPos = t.closedPos
+      ∧ (f ≠ 1 → t.openPos = s.openPos ∧ t.closedPos = s.closedPos) := by
+  obtain ⟨t, tmp, r1, _, r3, r4, hcase⟩ := reentrant_deposit_reply hI hs hks h
+  have htmp : tmp = (e.sender, dur) := by
+    rcases hcase with ⟨hf, ht, _⟩ | ⟨_, ht, _⟩
+    · rw [ht]
+      unfold tmpAfter
+      have := hnd hf
+      split
+      · rename_i x y d hx; exact absurd hx (this x y d)
+      · rfl
+    · exact ht
+  subst htmp
+  refine ⟨t, r1, r3, r4, ?_⟩
+  intro hf
+  rcases hcase with ⟨hf', _⟩ | ⟨_, _, h1, h2⟩
+  · exact absurd hf' hf
+  · exact ⟨h1, h2⟩
+
+/-- **OBSERVATION (what the unchanged helper does, not a clause of C11): a nested deposit takes the outer LP.**
+    When the nested operation is a helper `Deposit` of the token's account that went through, the outer reply
+    finds the NESTED deposit's `TEMP_STATE` and stakes the outer depositor's LP — all `a0 + a1` of it — for the
+    nested sender under the nested duration `d`; nobody else's positions are touched by the reply, so an outer
+    depositor other than the token's account is credited nothing. The helper still ends with nothing
+    (`helper_keeps_no_lp_reentrant`) and the custody equation holds (`custody_eq_tx`). -/
+theorem nested_deposit_takes_outer_lp {c : Cfg} {s s' : St} {e : Env} {hk : Hook} {a0 a1 dur x y d : Nat}
+    (hI : HInv s) (hs : e.sender ≠ HELPER) (hks : hk.sender ≠ HELPER) (hin : hk.inner = .helperDeposit x y d)
+    (h : stepTx c s e (.reenter hk (.helperDeposit a0 a1 dur)) = .ok (s', 1)) :
+    ∃ t : St, amtAt (openOf s' hk.sender) d = amtAt (openOf t hk.sender) d + (a0 + a1)
+      ∧ (∀ v, v ≠ hk.sender → openOf s' v = openOf t v) := by
+  obtain ⟨t, tmp, r1, _, r3, _, hcase⟩ := reentrant_deposit_reply hI hs hks h
+  have htmp : tmp = (hk.sender, d) := by
+    rcases hcase with ⟨_, ht, _⟩ | ⟨hf, _⟩
+    · rw [ht]; unfold tmpAfter; rw [hin]
+    · exact absurd rfl hf
+  subst htmp
+  exact ⟨t, r1, r3⟩
+
+/-- the history of the observation: cw20 LP, unbonding 86 400 s; bob (2) has deposited 5000 + 5000 through the helper -/
+def obsCfg : Cfg :=
+  { lpNative := false, feeAsset := 1, feeAmt := 1000, maxFlows := 3, buffer := 5, minDur := 86400, maxDur := 31556926 }
+def obsStart : St :=
+  reachTx obsCfg
+    (init 1 [((1, 1), 9000), ((1, 3), 9000), ((2, 1), 9000), ((2, 3), 9000), ((MALLORY, 1), 9000), ((MALLORY, 3), 9000),
+             ((PAIR, 0), 100000)])
+    [({ epoch := 1, time := 1700000000, sender := 2, offers := [(1, 5000), (3, 5000)] }, .plain (.helperDeposit 5000 5000 86400))]
+/-- the hostile pool token is armed: inside the helper's pull mallory (6) deposits 1000 + 1000 of its own, plainly -/
+def obsHook : Hook :=
+  { trig := 1, catch_ := false, sender := MALLORY, offers := [(1, 1000), (3, 1000)], inner := .helperDeposit 1000 1000 86400 }
+/-- alice (1) deposits 2000 + 2000 -/
+def obsResult : Res (St × Nat) :=
+  stepTx obsCfg obsStart { epoch := 1, time := 1700000010, sender := 1, offers := [(1, 2000), (3, 2000)] }
+    (.reenter obsHook (.helperDeposit 2000 2000 86400))
+
+/-- the exact history of the observation (engine `incentive`): `bob helper_deposit 5000 5000 86400`, then
+    `alice reenter t1 plain helper_deposit 1000 1000 86400 1:1000 3:1000 -- helper_deposit 2000 2000 86400 1:2000
+    3:2000`. The transaction goes through with the nested deposit (`fired = 1`); alice has paid 2000 + 2000 (7000
+    of each left) and holds NO position, mallory holds 6000 = its own 2000 + alice's 4000 LP, bob his 10 000; the
+    helper holds nothing and the contract's LP balance is exactly the staked 16 000. Replayed on the real
+    contracts with the same outcome. -/
+theorem nested_deposit_stakes_outer_lp_for_nested_sender :
+    (obsResult.toOption.map (fun x => (x.2, openOf x.1 1, openOf x.1 MALLORY, openOf x.1 2, balOf x.1 1 1, balOf x.1 1 3)))
+        = some (1, [], [{ dur := 86400, amt := 6000 }], [{ dur := 86400, amt := 10000 }], 7000, 7000)
+    ∧ (obsResult.toOption.map (fun x => (balOf x.1 HELPER 0, balOf x.1 HELPER 1, balOf x.1 HELPER 3, balOf x.1 INC 0, staked x.1)))
+        = some (0, 0, 0, 16000, 16000) :=
+  ⟨by decide, by decide⟩
 
 end WW.C11
